@@ -118,6 +118,11 @@ class FixSession(common.AsyncSession):
         self.target_comp_id = logon_msg.Header.TargetCompID
 
     def _prepare_complete_msg(self, msg: core.Message) -> bytearray:
+        # BeginString, BodyLength, MsgType and CheckSum are written here: values the message itself carries
+        # (a message obtained from the reader and sent again) must not go out a second time
+        for tag in (core.BEGIN_STRING_FIELD, core.BODY_LEN_FIELD, core.MSG_TYPE_FIELD):
+            msg.Header.values.pop(tag, None)
+        msg.Trailer.values.pop(core.CHECKSUM_FIELD, None)
         data = bytearray(msg.to_bytes()[1])
         data[0:0] = core.Field.from_tag_value(core.MSG_TYPE_FIELD, msg.Type).to_bytes()[1] + core.SOH
         data[0:0] = core.Field.from_tag_value(core.BODY_LEN_FIELD, len(data)).to_bytes()[1] + core.SOH
